@@ -75,6 +75,12 @@ def nested_unreached_roots_check(ctx, n, prop):
         hidden_files = sorted(p for p in files if os.path.basename(p).startswith("."))
         # input paths: the outer tree, plus nested ones the outer walk does not reach
         nested = ["proj/.cache", "proj/build", "proj/.cache/deep", "proj/sub/.priv", "proj/build/obj", "proj/sub"]
+        # -L (no links in the tree: same selection).  The visited set then decides what is walked twice; an entry rejected as
+        # HIDDEN on one route must still be walked when it is an input path of its own.  (Entries rejected by an IGNORE file are
+        # left out with -L: the visited set is route-insensitive there, known finding N1.)
+        follow = rng.chance(1, 3)
+        if follow:
+            nested = ["proj/.cache", "proj/.cache/deep", "proj/sub/.priv", "proj/sub"]
         roots = ["proj"] + rng.shuffle(nested)[:1 + rng.below(3)]
         if hidden_files and rng.chance(1, 2):
             roots.append(os.path.relpath(rng.choice(hidden_files), top))
@@ -85,8 +91,8 @@ def nested_unreached_roots_check(ctx, n, prop):
         spelled = [r if how == 0 else ("./" + r if how == 1 else os.path.join(top, r)) for r in roots]
         hidden = rng.chance(1, 5)
         no_ignore = rng.chance(1, 5)
-        opts = (["--hidden"] if hidden else []) + (["--no-ignore"] if no_ignore else [])
-        opts += rng.choice([[], ["--threads", "1"], ["--threads", "8"]])
+        opts = (["--hidden"] if hidden else []) + (["--no-ignore"] if no_ignore else []) + (["-L"] if follow else [])
+        opts += rng.choice([[], ["--threads", "1"], ["--threads", "8"], ["--threads", "main:1"]])
         stdin_mode = rng.chance(1, 3)
         env0 = {"FCLONES_VERIF_DISK_KIND": "ssd", "HOME": home, "XDG_CONFIG_HOME": os.path.join(home, ".config")}
         if stdin_mode:
@@ -97,6 +103,7 @@ def nested_unreached_roots_check(ctx, n, prop):
         ctx.count()
         ctx.distinct(("nested", i, tuple(spelled), tuple(opts), stdin_mode), True)
         ctx.bump("nested_unreached_roots", "+".join(sorted(r for r in roots if r not in ("proj", "other"))) or "-")
+        ctx.bump("nested_unreached_follow_links", int(follow))
         payload = {"scenario": "input paths inside other input paths that the outer walk does not reach (hidden / ignored)",
                    "top": top, "roots": spelled, "opts": opts, "stdin": stdin_mode, "ignore_file": ign_name,
                    "files": sorted(files), "stderr": err.decode("utf-8", "replace")[-400:],
